@@ -143,16 +143,29 @@ func runLock(repo, outDir string) int {
 		return 2
 	}
 	lf := lockFile{}
+	props := map[string]bool{}
 	for _, fc := range e.contracts.Funcs {
-		if fc.Trusted {
-			continue
-		}
-		t, err := e.translate(fc)
-		if err != nil {
-			fmt.Fprintln(os.Stderr, "nsqvc:", err)
-			return 2
-		}
 		for _, p := range fc.Props {
+			props[p] = true
+		}
+	}
+	cache := map[*FuncContract]*fnTrans{}
+	for p := range props {
+		funcs, _ := propFuncs(e, p)
+		for _, fc := range funcs {
+			if fc.Trusted {
+				continue
+			}
+			t := cache[fc]
+			if t == nil {
+				var err error
+				t, err = e.translate(fc)
+				if err != nil {
+					fmt.Fprintln(os.Stderr, "nsqvc:", err)
+					return 2
+				}
+				cache[fc] = t
+			}
 			for _, o := range t.obls {
 				if o.Kind == "safety" || o.Kind == "cover" {
 					continue // safety sites move with harmless edits; their count is not locked
@@ -182,6 +195,61 @@ func runLock(repo, outDir string) int {
 	return 0
 }
 
+// propFuncs: the functions whose obligations make up the check of a property: those whose contract names the property
+// (`props`), plus - transitively - every repository function whose VERIFIED contract is relied upon at a call site inside one of them
+// (a caller is checked against the callee's contract, so the property's proof depends on the callee's own proof as well).
+// Returned in the order of e.contracts.Funcs; dep[fc] is true for functions included by dependency only.
+func propFuncs(e *Engine, prop string) ([]*FuncContract, map[*FuncContract]bool) {
+	if os.Getenv("NSQVC_NO_CLOSURE") != "" {
+		var out []*FuncContract
+		for _, fc := range e.contracts.Funcs {
+			if hasProp(fc.Props, prop) {
+				out = append(out, fc)
+			}
+		}
+		return out, map[*FuncContract]bool{}
+	}
+	sel := map[*FuncContract]bool{}
+	dep := map[*FuncContract]bool{}
+	var queue []*FuncContract
+	for _, fc := range e.contracts.Funcs {
+		if hasProp(fc.Props, prop) {
+			queue = append(queue, fc)
+		}
+	}
+	for len(queue) > 0 {
+		fc := queue[0]
+		queue = queue[1:]
+		if sel[fc] {
+			continue
+		}
+		sel[fc] = true
+		if fc.Trusted || e.bindErr[fc] != nil {
+			continue
+		}
+		t, err := e.translate(fc)
+		if err != nil {
+			continue
+		}
+		for _, used := range t.usedContracts {
+			if used == nil || used.Extern || e.contractFn[used] == nil || sel[used] {
+				continue
+			}
+			if !hasProp(used.Props, prop) {
+				dep[used] = true
+			}
+			queue = append(queue, used)
+		}
+	}
+	var out []*FuncContract
+	for _, fc := range e.contracts.Funcs {
+		if sel[fc] {
+			out = append(out, fc)
+		}
+	}
+	return out, dep
+}
+
 func runCheck(repo, prop, tier, fnFilter, outDir string, noReplay, verbose bool) int {
 	start := time.Now()
 	if prop == "" {
@@ -204,10 +272,8 @@ func runCheck(repo, prop, tier, fnFilter, outDir string, noReplay, verbose bool)
 	os.MkdirAll(out, 0o755)
 	var ts []*fnTrans
 	var trusted []*FuncContract
-	for _, fc := range e.contracts.Funcs {
-		if !hasProp(fc.Props, prop) {
-			continue
-		}
+	funcs, depOnly := propFuncs(e, prop)
+	for _, fc := range funcs {
 		if be := e.bindErr[fc]; be != nil {
 			ts = append(ts, bindFailure(e, fc, prop, be))
 			continue
@@ -259,6 +325,12 @@ func runCheck(repo, prop, tier, fnFilter, outDir string, noReplay, verbose bool)
 	}
 	solveAll(ts, out, timeout, cross, 16)
 	rep := buildReport(e, prop, tier, ts, trusted, out, noReplay, fnFilter == "")
+	for fc := range depOnly {
+		if fn := e.contractFn[fc]; fn != nil {
+			rep.DepFuncs = append(rep.DepFuncs, e.displayName(fn))
+		}
+	}
+	sort.Strings(rep.DepFuncs)
 	if tier == "thorough" && fnFilter == "" && os.Getenv("NSQVC_NO_CANARIES") == "" {
 		rep.Canaries = runCanaries(prop, repo)
 	}
@@ -344,8 +416,9 @@ func runCanaries(prop, repo string) []map[string]interface{} {
 				return
 			}
 			var ts []*fnTrans
-			for _, fc := range e.contracts.Funcs {
-				if !hasProp(fc.Props, prop) || fc.Trusted {
+			cfuncs, _ := propFuncs(e, prop)
+			for _, fc := range cfuncs {
+				if fc.Trusted {
 					continue
 				}
 				t, err := e.translate(fc)
